@@ -158,6 +158,10 @@ def run_family(ctx, r, index):
             s_ids = np.array(samp, dtype=object)
         elif r.random() < .2:
             o_ids, s_ids = tuple(obs), np.array(samp)
+        elif r.random() < .15:
+            import pandas as pd
+            o_ids, s_ids = pd.Index(obs), pd.Series(samp, dtype=object)
+            ctx.count('ids_as_pandas_containers')
         try:
             t = Table(data, o_ids, s_ids, copy.deepcopy(omd),
                       copy.deepcopy(smd), type=ttype, **kw)
